@@ -96,7 +96,8 @@ fn part_a(rep: &mut Report, seed: u64, index: u64) {
     for p in &content.creds {
         rig.store.insert_raw(p.clone());
     }
-    let mut auth = rig.auth(AuthCfg { counters: rng.bool(), ..Default::default() });
+    let prf_capable = rng.bool();
+    let mut auth = rig.auth(AuthCfg { counters: rng.bool(), hmac: if prf_capable { crate::util::HmacCfg::WithoutUv } else { crate::util::HmacCfg::None }, ..Default::default() });
     let n_ops = rng.range(3, 10);
     for step in 0..n_ops {
         rep.eval();
@@ -119,7 +120,17 @@ fn part_a(rep: &mut Report, seed: u64, index: u64) {
         let own_first = snapshot.iter().find(|c| c.rp_id == rp).map(|c| c.id.clone());
         let key = format!("a|{}|{class}|t{known_types}|rp{}|n{}", is_get, RPS.iter().position(|r| *r == rp).unwrap(), snapshot.len().min(8));
         if is_get {
-            let res = catch(|| block_on(auth.get_assertion(ga_request(rp, &[5u8; 32], list, None, true, false))));
+            // a third of the assertions carry per-credential PRF inputs whose keys need not be in the
+            // allow list (the platform checks that, the authenticator is not entitled to rely on it)
+            let ext = rng.chance(1, 3).then(|| {
+                let mut by = std::collections::HashMap::new();
+                for _ in 0..rng.range(1, 2) {
+                    let key: Vec<u8> = if !cur.creds.is_empty() && rng.chance(3, 4) { rng.pick(&cur.creds).credential_id.to_vec() } else { rng.bytes(16) };
+                    by.insert(key.into(), passkey_types::ctap2::extensions::AuthenticatorPrfValues { first: [3; 32], second: None });
+                }
+                passkey_types::ctap2::get_assertion::ExtensionInputs { hmac_secret: None, prf: Some(passkey_types::ctap2::extensions::AuthenticatorPrfInputs { eval: rng.bool().then(|| passkey_types::ctap2::extensions::AuthenticatorPrfValues { first: [4; 32], second: None }), eval_by_credential: Some(by) }) }
+            });
+            let res = catch(|| block_on(auth.get_assertion(ga_request(rp, &[5u8; 32], list, ext, true, false))));
             let res = match res {
                 Ok(r) => r,
                 Err((sig, d)) => {
@@ -165,7 +176,19 @@ fn part_a(rep: &mut Report, seed: u64, index: u64) {
                 }
             }
         } else {
-            let res = catch(|| block_on(auth.make_credential(mc_request(rp, b"same-user-handle", &[6u8; 32], vec![pk_param(coset::iana::Algorithm::ES256)], list, None, false, true, false))));
+            // the exclusion answer comes first whatever else is wrong with the request (CTAP2 puts the
+            // exclude list first so that platforms can probe with throw-away requests)
+            let params = match rng.below(6) {
+                0 => vec![pk_param(coset::iana::Algorithm::RS256)],
+                1 => vec![],
+                _ => vec![pk_param(coset::iana::Algorithm::ES256)],
+            };
+            let mut req = mc_request(rp, b"same-user-handle", &[6u8; 32], params, list, None, false, true, false);
+            if rng.chance(1, 8) {
+                req.pin_auth = Some(vec![1, 2, 3].into());
+                req.pin_protocol = Some(1);
+            }
+            let res = catch(|| block_on(auth.make_credential(req)));
             let res = match res {
                 Ok(r) => r,
                 Err((sig, d)) => {
